@@ -4,6 +4,7 @@ import (
 	"bytes"
 	"encoding/base64"
 	"fmt"
+	"net/url"
 	"sort"
 	"strings"
 	"testing"
@@ -68,6 +69,20 @@ func genC16(t *rapid.T) C16Case {
 		c.SP.IdPSLO = c.URL
 	}
 	c.Relay = genHTMLRelay(t)
+	if c.Relay != "" && rapid.IntRange(0, 5).Draw(t, "relayInEndpoint") == 0 {
+		// the configured endpoint already carries a parameter (named like a binding field) whose value IS the relay
+		// state of this call: two independently configured values that happen to be equal
+		sep := "?"
+		if strings.Contains(c.URL, "?") {
+			sep = "&"
+		}
+		c.URL += sep + rapid.SampledFrom([]string{"RelayState", "RelayState", "SAMLRequest", "SAMLResponse", "target"}).Draw(t, "endpointParam") + "=" + url.QueryEscape(c.Relay)
+		if strings.HasPrefix(c.Flow, "BuildAuth") {
+			c.SP.IdPSSO = c.URL
+		} else {
+			c.SP.IdPSLO = c.URL
+		}
+	}
 	c.DocKind = "sp-built"
 	if c.Flow != "BuildAuthBodyPost" {
 		switch rapid.IntRange(0, 5).Draw(t, "arbitraryDoc") {
